@@ -90,6 +90,7 @@ type Frame struct {
 	loopPre  map[*ssa.BasicBlock]*State // state on first arrival at a loop header, for (pre e) in invariants
 	top      bool
 	retNames []string
+	parent   *Frame // the frame that called this (inlined) function; nil for the function under verification
 }
 
 type deferred struct {
@@ -99,7 +100,7 @@ type deferred struct {
 }
 
 func (f *Frame) clone() *Frame {
-	n := &Frame{fn: f.fn, depth: f.depth, top: f.top, siteOrd: f.siteOrd, retNames: f.retNames}
+	n := &Frame{fn: f.fn, depth: f.depth, top: f.top, siteOrd: f.siteOrd, retNames: f.retNames, parent: f.parent}
 	n.vals = make(map[ssa.Value]*Val, len(f.vals))
 	for k, v := range f.vals {
 		n.vals[k] = v
